@@ -176,7 +176,7 @@ impl Report {
 
         // replay artefacts: one per distinct key (first = simplest, alphabets are ordered simplest-first)
         let mut replay_paths: Vec<(String, String, String)> = Vec::new();
-        let dir = format!("{}/replays/{}", VERIF_ROOT, self.prop);
+        let dir = format!("{}/{}", std::env::var("VERIF_REPLAY_DIR").unwrap_or_else(|_| format!("{}/replays", VERIF_ROOT)), self.prop);
         let _ = std::fs::create_dir_all(&dir);
         let mut seen_keys: BTreeMap<String, u64> = BTreeMap::new();
         for v in unknown.iter() {
@@ -234,7 +234,8 @@ impl Report {
             "wall_s": (wall * 1000.0).round() / 1000.0,
             "violations": seen_keys.keys().map(|k| per_key.get(k).copied().unwrap_or(0)).sum::<u64>(),
         });
-        let evdir = format!("{}/evidence", VERIF_ROOT);
+        // VERIF_EVIDENCE_DIR redirects evidence while a seeded change is applied to /repo (mutant runs)
+        let evdir = std::env::var("VERIF_EVIDENCE_DIR").unwrap_or_else(|_| format!("{}/evidence", VERIF_ROOT));
         let _ = std::fs::create_dir_all(&evdir);
         let evpath = format!("{}/{}.json", evdir, self.prop);
         if let Err(e) = std::fs::write(&evpath, serde_json::to_vec_pretty(&ev).unwrap()) {
